@@ -165,6 +165,23 @@ def run(ctx):
                     texts.append(a + " ".join(sp) + " " + tl + b)
     ctx.rule("%d declarations / type names made of <=%d declaration specifiers (18 forms incl. _Atomic(T), _Alignas, anonymous struct) x 15 declarator tails x 7 contexts (file scope after a typedef, struct body, block, parameter list, sizeof, cast, for-init)%s" % (len(texts), depth, "" if quick else "; a quarter of the 3-specifier combinations"))
     check_batch(ctx, texts, "specifier-lists")
+    # literal spellings with every suffix combination (well-formed or not): the parser's constant typing
+    # must never raise anything but ParseError whatever the lexer lets through
+    texts = []
+    sufs = ["".join(p) for n in range(0, 4) for p in itertools.product("uUlL", repeat=n)]
+    fsufs = ["".join(p) for n in range(0, 3) for p in itertools.product("fFlLuU", repeat=n)]
+    for body in ("1", "0", "017", "0x1F", "0b101", "08"):
+        for sf in sufs:
+            for a, b in (("int x = ", ";"), ("int a[", "];"), ("void f(void) { return ", "; }")):
+                texts.append(a + body + sf + b)
+    for body in ("1.5", "1e3", ".5", "0x1.8p1", "1."):
+        for sf in fsufs:
+            texts.append("double d = " + body + sf + ";")
+    for lit in ("'a'", "'ab'", "'abcd'", "'abcde'", "''", "'\\x'", "'\\xZ'", "'\\8'", "L'a'", "u8'a'", "u'ab'", "U'a'", "'\\", "'a", '"a', '"\\', '"\\q"', 'L"a" "b"', '"a" L"b"', 'u8"a" u8"b"'):
+        for a, b in (("int x = ", ";"), ("char *s = ", ";"), ("void f(void) { g(", "); }")):
+            texts.append(a + lit + b)
+    ctx.rule("%d literal spellings: 6 integer bodies x every string of <=3 suffix letters x 3 contexts, 5 floating bodies x <=2 suffix letters, 20 character / string forms incl. empty, unterminated, bad escapes and mixed-prefix concatenations" % len(texts))
+    check_batch(ctx, texts, "literal-suffixes")
     # size extremes: directive arguments, literals and identifiers far beyond everyday lengths
     texts = []
     for n in (1, 9, 19, 20, 400, 4300, 4301):
